@@ -242,6 +242,9 @@ func c06Scenarios(tier mc.Tier) []mc.Scenario {
 	// a correct cache and distribution points that differ only in their query string: what one point delivered never answers for another
 	add(&c06Scenario{name: "one-cert-o0c2-cache-memory-points-differing-in-the-query", n: 2, o: []int{0}, c: []int{2}, entry: "validatecontext", lazy: true, bound: -1, ocspA: redO, crlA: filterAnswers(redC, func(a faultAnswer) bool { return a.cancel == "" }), cache: "memory", queryURLs: true})
 	add(&c06Scenario{name: "one-cert-o0c3-cache-memory-points-differing-in-the-query", n: 2, o: []int{0}, c: []int{3}, entry: "validatecontext", lazy: true, bound: 2, ocspA: redO, crlA: filterAnswers(redC, func(a faultAnswer) bool { return a.cancel == "" }), cache: "memory", queryURLs: true})
+	// two certificates of one chain naming the same responder URL: a fault in the exchange about one of them is not an answer about the other
+	out = append(out, mc.Scenario{Name: "C06-responder-shared-by-two-certificates", Bound: -1, Expect: 4 * 2 * 2, Body: c06SharedResponder,
+		Params: map[string]string{"chain": "3", "leaf responders": "[shared]", "CA responders": "[own (unreachable), shared]", "fault": "on the exchange about the leaf only"}})
 	// longer chains: bounded deviations from the genuine good answers, isolation between certificates
 	dev := 2
 	if tier == mc.Thorough {
@@ -580,4 +583,104 @@ func init() {
 		},
 		BudgetS: [2]int{170, 1700},
 	})
+}
+
+var (
+	c06ShOnce sync.Once
+	c06ShW    *revWorld
+)
+
+const c06SharedURL = "http://ocsp.test/shared/r9"
+
+// c06SharedResponder: the leaf and its CA both name one responder URL (a CA usually runs one responder for its hierarchy); the CA also
+// names a responder of its own, listed first and unreachable. The exchange about the leaf meets a fault; the exchange about the CA at
+// the shared responder is answered authentically. The CA's result must be what it is when the leaf's exchange goes well. The CA's
+// first exchange is held until the leaf's has ended, so that the CA reaches the shared responder afterwards (if the library does not
+// run the two checks side by side the hold ends by itself after two seconds; the execution is then recorded, not judged).
+func c06SharedResponder(c *mc.Ctx) {
+	c06ShOnce.Do(func() {
+		c06ShW = newRevWorldURLs(3, []int{1, 2}, []int{0, 0}, purposeCS, func(kind string, ci, j int) (string, bool) {
+			if kind == "ocsp" && ((ci == 0 && j == 0) || (ci == 1 && j == 1)) {
+				return c06SharedURL, true
+			}
+			return "", false
+		})
+	})
+	w := c06ShW
+	fault := []string{"transport-error", "timeout", "http-503", "garbage"}[c.ChooseFree("fault-on-the-exchange-about-the-leaf", 4)]
+	caStatus := []string{"good/issuer", "revoked/issuer"}[c.ChooseFree("answer-about-the-ca", 2)]
+	entry := []string{"validatecontext", "validate"}[c.ChooseFree("entry", 2)]
+	chain := pki.X509s(w.certs)
+	run := func(leafFaulty bool) (*result.CertRevocationResult, bool, string) {
+		leafDone := make(chan struct{})
+		var once sync.Once
+		held := true
+		var mu sync.Mutex
+		var log []string
+		tr := &netsim.Transport{}
+		tr.Handler = func(r *netsim.Request, raw *http.Request) netsim.Answer {
+			serial := ocspSerialAsked(r)
+			who := -1
+			for i := 0; i < 2; i++ {
+				if serial != nil && serial.Cmp(w.certs[i].X.SerialNumber) == 0 {
+					who = i
+				}
+			}
+			mu.Lock()
+			log = append(log, fmt.Sprintf("%s about certificate %d", strings.TrimPrefix(r.URL[:min(len(r.URL), 28)], "http://"), who))
+			mu.Unlock()
+			switch {
+			case strings.HasPrefix(r.URL, c06SharedURL) && who == 0:
+				defer once.Do(func() { close(leafDone) })
+				if !leafFaulty {
+					return w.ow[0].answer(ocspByName("good/issuer"))
+				}
+				switch fault {
+				case "timeout":
+					return netsim.Answer{Err: netsim.ErrTimeout}
+				case "http-503":
+					return netsim.Answer{Status: 503}
+				case "garbage":
+					return netsim.Answer{Status: 200, Body: []byte("not an ocsp response")}
+				}
+				return netsim.Answer{Err: netsim.ErrTransport}
+			case strings.HasPrefix(r.URL, c06SharedURL) && who == 1:
+				return w.ow[1].answer(ocspByName(caStatus))
+			case who == 1:
+				// the CA's own responder: unreachable, and slow enough for the exchange about the leaf to end first
+				select {
+				case <-leafDone:
+				case <-time.After(2 * time.Second):
+					mu.Lock()
+					held = false
+					mu.Unlock()
+				}
+				return netsim.Answer{Err: netsim.ErrTransport}
+			}
+			return netsim.Answer{Status: 404}
+		}
+		res, err, pan := runEntry(entry, purposeCS, tr, chain)
+		if pan != nil || err != nil || len(res) != 3 || res[1] == nil {
+			return nil, false, fmt.Sprintf("panic=%v err=%v results=%d", pan, err, len(res))
+		}
+		mu.Lock()
+		defer mu.Unlock()
+		return res[1], held, strings.Join(log, "; ")
+	}
+	ref, _, reflog := run(false)
+	got, held, gotlog := run(true)
+	if ref == nil || got == nil {
+		c.Fail("C06 valid chain not processed (shared responder)", "%s / %s", reflog, gotlog)
+		return
+	}
+	c.Statef("fault=%s ca=%s entry=%s", fault, caStatus, entry)
+	c.Tracef("without the fault: CA %s [%s]; with %s on the exchange about the leaf: CA %s [%s]", ref.Result, reflog, fault, got.Result, gotlog)
+	if !held {
+		c.Outcome("shared-responder:order-not-achieved")
+		return
+	}
+	c.Outcome("shared-responder:ca=" + got.Result.String())
+	if got.Result != ref.Result {
+		c.Fail("C06 a fault on one certificate changed the result of another (shared responder URL)", "entry %s: %s on the exchange about the leaf turned the CA's result from %s into %s; requests: %s", entry, fault, ref.Result, got.Result, gotlog)
+	}
 }
